@@ -187,6 +187,25 @@ def run_case(case):
     if X2[0].shape != (5, 10) or not np.array_equal(X2[0].ravel(), LA):
         viol.append({"what": "array2d_vs_1d", "ref": (lat0, lon0)})
 
+    # 2-D offset arrays that are not a rectilinear grid: a (distance x bearing) table (first distance 0, first bearing north), and a
+    # single row / single column - every element must be what the scalar call gives for that element
+    dists = np.concatenate([[0.0], np.sort(rng.uniform(10.0, 5000.0, 5))])
+    brgs = np.concatenate([[0.0], np.sort(rng.uniform(1.0, 359.0, 7))])
+    PX = dists[:, None] * np.sin(np.radians(brgs))[None, :]
+    PY = dists[:, None] * np.cos(np.radians(brgs))[None, :]
+    for XA, YA, nm_ in ((PX, PY, "polar table"), (PX[3:4, :], PY[3:4, :], "one row"), (PX[:, 2:3], PY[:, 2:3], "one column")):
+        LAa, LOa = xy_to_latlon(XA, YA, lat0, lon0)
+        counters["array_calls"] += 1
+        LAa, LOa = np.asarray(LAa), np.asarray(LOa)
+        ok_ = LAa.shape == XA.shape and LOa.shape == XA.shape
+        if ok_:
+            for i_ in range(XA.shape[0]):
+                for j_ in range(XA.shape[1]):
+                    a, b = xy_to_latlon(float(XA[i_, j_]), float(YA[i_, j_]), lat0, lon0)
+                    if float(a) != float(LAa[i_, j_]) or float(b) != float(LOa[i_, j_]):
+                        ok_ = False
+        if not ok_:
+            viol.append({"what": "array_vs_scalar", "ref": (lat0, lon0), "form": f"2-D offsets that are not a meshgrid ({nm_})"})
     # towers in a parsed configuration carry the same local coordinates
     tw = []
     for k, (la0, lo0, x, y, dist, brg) in enumerate(pts[:6]):
